@@ -76,17 +76,15 @@ def r04_1(ctx):
     b = ctx.body(ST + 'cap_line', R)
     an = ctx.an(b)
     key = 'stroke::cap_line'
-    ms = [m for m in matches(ctx, b, 'LineCap')]
-    if ctx.check(len(ms) == 1 and ms[0].otherwise is None, R, key + '|match', b.loc(), 'one match on style.cap, no wildcard', 'expected one wildcard-free match on style.cap'):
-        m = ms[0]
-        r, nm = field_path(m.scrut)
-        ctx.check(r == ('param', 2) and nm == ['cap'], R, key + '|scrutinee', b.loc(), 'match style.cap', 'the cap dispatch does not match on style.cap')
+    # what cap_line emits per cap kind, however the dispatch on style.cap is spelled
+    vp = shared.variant_call_paths(ctx, b, lambda t: field_path(t) == (('param', 2), ['cap']), 'raqote::stroke::LineCap')
+    if ctx.check(vp is not None and set(vp) == {'Butt', 'Round', 'Square'} and all(vp[v] for v in vp), R, key + '|match', b.loc(), 'cap_line dispatches on style.cap for Butt, Round and Square',
+                 'cannot read cap_line as a dispatch on style.cap over Butt/Round/Square (fail closed)'):
         for v in ('Butt', 'Round', 'Square'):
-            if v not in m.arms:
-                ctx.fail(R, key + '|arm ' + v, b.loc(), 'no %s arm' % v)
+            seqs = set(tuple(d.split('::')[-1] for bi, d, ct in path if d in EMIT) for path in vp[v])
+            if not ctx.check(len(seqs) == 1, R, key + '|arm ' + v, b.loc(), 'one emission sequence for %s' % v, 'the %s cap emits different op sequences on different paths: %s' % (v, sorted(seqs))):
                 continue
-            region = arm_region(an.cfg, m.bb, m.arms[v])
-            names = [d.split('::')[-1] for bi, d, ct in calls_in(ctx, b, region) if d and d in EMIT]
+            names = list(list(seqs)[0])
             if v == 'Butt':
                 ctx.check(not names, R, key + '|Butt', b.loc(), 'Butt emits nothing', 'the Butt arm emits %s' % names)
             elif v == 'Round':
@@ -255,6 +253,24 @@ def r04_3(ctx):
     if 'Close' in m.arms:
         region = arm_region(cfg, m.bb, m.arms['Close'])
         js = [(bi, ct) for bi, ct in joins if bi in region]
+        # one join whose incoming normal is `closing_normal.unwrap_or(last_normal)` stands for the two joins of the two
+        # cases (a closing segment with a normal / a degenerate one)
+        js2 = []
+        for bi, ct in js:
+            exp = False
+            for k3 in (2, 3, 4):
+                a3 = strip_all(ct[2][k3])
+                if is_call(a3, 'Option::<T>::unwrap_or') and len(a3[2]) == 2:
+                    some = ('field', a3[2][0], '0', 'std::option::Option', 'Some')
+                    for alt in (some, a3[2][1]):
+                        args = list(ct[2])
+                        args[k3] = alt
+                        js2.append((bi, ('call', ct[1], tuple(args), ct[3])))
+                    exp = True
+                    break
+            if not exp:
+                js2.append((bi, ct))
+        js = js2
         descr = sorted(tuple(kind(x) for x in ct[2][2:5]) for bi, ct in js)
         # expected three joins: (cursor, last, n), (end_point, n, start_normal), and the degenerate (end_point, last, start_normal)
         def is_n(kk):
@@ -831,10 +847,17 @@ def r09_1b(ctx):
         sig = const_sig(it)
         if sig is None or sig == ('none',):
             continue
-        if not any(d.bb in work for d in ds):
+        # calls that take the variable by `&mut`: mutations (push, drain, ..) and, for a vector, `clear()` = re-initialisation
+        mut_calls = []
+        for bi2, d2, ct2 in calls_in(ctx, b):
+            tys = b.blocks[bi2]['t'].get('arg_tys') or []
+            if ct2[2] and tys and tys[0].startswith('&mut') and strip_all(ct2[2][0]) in (('mem', l), ('ref', ('mem', l))):
+                mut_calls.append((bi2, d2))
+        clears = set(bi2 for bi2, d2 in mut_calls if sig == ('empty-vec',) and d2 and d2.endswith('Vec::<T, A>::clear'))
+        if not any(d.bb in work for d in ds) and not any(bi2 in work for bi2, d2 in mut_calls):
             continue
         n += 1
-        blocks = set()
+        blocks = set(bi2 for bi2 in clears if bi2 in mregion)
         for d in ds:
             if d.bb in mregion and d.kind in ('assign', 'call') and not d.partial:
                 t = an.def_term(d) if d.kind == 'assign' else an.call_term(d.bb)
@@ -846,7 +869,7 @@ def r09_1b(ctx):
         # what follows a Close continues from the subpath's start as a new subpath (the arm restarts the pattern, R09.1):
         # the same state must be re-initialised once the closing segment has been chopped
         if cl_close is not None:
-            blocks = set()
+            blocks = set(bi2 for bi2 in clears if bi2 in cregion and cfg.dominates(cl_close[0], bi2) and bi2 not in cl_close[1])
             for d in ds:
                 if d.bb in cregion and d.kind in ('assign', 'call') and not d.partial and cfg.dominates(cl_close[0], d.bb) and d.bb not in cl_close[1]:
                     t = an.def_term(d) if d.kind == 'assign' else an.call_term(d.bb)
@@ -1123,11 +1146,22 @@ def r04_7(ctx):
     # --- square cap
     cb = ctx.body(ST + 'cap_line', R)
     can = ctx.an(cb)
-    ms = matches(ctx, cb, 'LineCap')
     key = 'stroke::cap_line|Square'
-    if len(ms) == 1 and 'Square' in ms[0].arms:
-        region = arm_region(can.cfg, ms[0].bb, ms[0].arms['Square'])
-        polys = emitted_polygons(ctx, cb, region)
+    vp = shared.variant_call_paths(ctx, cb, lambda t: field_path(t) == (('param', 2), ['cap']), 'raqote::stroke::LineCap')
+    sq_paths = (vp or {}).get('Square') or []
+    if len(sq_paths) == 1:
+        # the closed figure emitted on the Square path: move_to, line_to.., close in path order
+        polys = []
+        cur = None
+        for bi, d, ct in sq_paths[0]:
+            if d == PB + 'move_to':
+                cur = [(bi, ct[2][1], ct[2][2])]
+            elif d == PB + 'line_to' and cur is not None:
+                cur.append((bi, ct[2][1], ct[2][2]))
+            elif d == PB + 'close' and cur is not None:
+                if len(cur) >= 3:
+                    polys.append(cur)
+                cur = None
         if ctx.check(len(polys) == 1, R, key + '|found', cb.loc(), 'one closed polygon', 'expected one closed move_to/line_to/close figure in the Square arm, found %d (fail closed)' % len(polys)):
             P = shoelace([(va.sp(x), va.sp(y)) for bi, x, y in polys[0]])
             px, py = xy(('param', 3))
@@ -1171,6 +1205,9 @@ def r04_7(ctx):
                   'is_interior_angle does not test an antisymmetric form T(a, b) = -T(-b, -a), or flip() is not the negation: after join_line\'s normalisation (s1, s2) := (flip(s2), flip(s1)) the join is no longer known to be on the outer side')
         # P == kappa * O^2 * T with O the half width
         wl = [l for l in P.leaves() if l[0] == 'field' and l[2] == 'width']
+        if not wl:
+            # the half width handed in as a scalar parameter (bevel(dest, offset, ..)): any real squared is >= 0 as well
+            wl = [l for l in P.leaves() if l[0] == 'param' and l not in T.leaves() and (bb_.locals[l[1]].get('ty') or '') == 'f32']
         kappa = None
         if len(wl) == 1:
             W = Poly.leaf(wl[0])
